@@ -16,12 +16,13 @@ from pysym.values import *  # noqa
 from pysym.harness import Check, Recorder
 
 from bibtexparser.model import Entry, Field, String, Preamble, ExplicitComment, ImplicitComment
+from bibtexparser.splitter import Splitter
 
 KS = "aAbD"      # "D": a one-letter key that is a substring of the reserved name ID
 OPS = ("set_field", "setitem", "pop", "popd", "del", "get", "getd", "in", "getitem")
 
 
-def drv_map(keys0, ops):
+def drv_map(keys0, ops, parsed=False):
     fields = []
     d = {}
     i = 0
@@ -29,7 +30,13 @@ def drv_map(keys0, ops):
         fields.append(Field(k, "v" + str(i)))
         d[k] = "v" + str(i)
         i += 1
-    e = Entry("article", "ek", fields)
+    other = None
+    if parsed:
+        # the entry under test comes out of the splitter, next to a second field-less entry that must stay as it is
+        blocks = Splitter("@article{ek}\n@book{other}\n").split().blocks
+        e, other = blocks[0], blocks[1]
+    else:
+        e = Entry("article", "ek", fields)
     results = []
     snaps = []
     held = []      # (field object handed out by get, its key and value at that time)
@@ -73,6 +80,9 @@ def drv_map(keys0, ops):
         fd = e.fields_dict
         snaps.append(([(f.key, f.value) for f in e.fields], [(kk, fd[kk].value) for kk in fd], e.items(), list(d.items())))
     unchanged = [(f.key, f.value, k0, v0) for f, k0, v0 in held]
+    if parsed:
+        fresh = Splitter("@misc{later}").split().blocks[0]
+        unchanged.append((len(other.fields), len(fresh.fields), 0, 0))
     return results, snaps, e["ENTRYTYPE"], e["ID"], unchanged
 
 
@@ -94,28 +104,30 @@ def check_map(res, E):
     return conds
 
 
-def replay_map(keys0, ops):
+def replay_map(keys0, ops, parsed=False):
     if len(set(keys0)) != len(keys0):
         return None
     try:
-        res = drv_map(keys0, ops)
+        res = drv_map(keys0, ops, parsed)
     except Exception as ex:  # noqa
+        from pysym.harness import guard_repo_exception
+        guard_repo_exception(ex)
         return {"input": [keys0, ops], "observed": f"raised {type(ex).__name__}: {ex}", "expected": "dict-like behaviour"}
     if all(bool(c) for c in check_map(res, lambda a, b: a == b)):
         return None
     return {"input": [keys0, ops], "observed": {"results": res[0], "final": res[1][-1] if res[1] else None}, "expected": "as an insertion-ordered dict"}
 
 
-def task_map(n0, opnames):
+def task_map(n0, opnames, parsed=False):
     eng = Engine()
     rec = Recorder(eng)
     keys0 = [eng.sym_str(f"k{i}_", 1, KS) for i in range(n0)]
     ops = [(op, eng.sym_str(f"a{j}_", 1, KS), "t" + str(j)) for j, op in enumerate(opnames)]
     E = eng.I.models.eq_simple
     distinct = b_all(b_not(E(a, b)) for a, b in itertools.combinations(keys0, 2))
-    worlds = eng.run(drv_map, [keys0, ops], guard=distinct)
+    worlds = eng.run(drv_map, [keys0, ops, parsed], guard=distinct)
     for W in worlds:
-        rp = lambda m: replay_map(eng.model_value(m, keys0), [tuple(o) for o in eng.model_value(m, [list(o) for o in ops])])
+        rp = lambda m: replay_map(eng.model_value(m, keys0), [tuple(o) for o in eng.model_value(m, [list(o) for o in ops])], parsed)
         if W.exc is not None:
             rec.require(W, b_z3(distinct) if not isinstance(distinct, bool) else distinct, "no-exception", rp)
             continue
@@ -199,6 +211,8 @@ def replay_eq(ka, sa, na, kb, sb, nb, meta_b, read_b=False):
     try:
         r = drv_eq(ka, sa, na, kb, sb, nb, meta_b, read_b)
     except Exception as ex:  # noqa
+        from pysym.harness import guard_repo_exception
+        guard_repo_exception(ex)
         return {"input": [ka, sa, na, kb, sb, nb, meta_b, read_b], "observed": f"raised {type(ex).__name__}: {ex}", "expected": "booleans"}
     exp = (same_class(ka, kb) and ka == kb and all(sa[i] == sb[i] for i in USED[ka]) and na == nb and not (meta_b is True and ka != "Field"))
     if r[0] == exp and r[1] == exp and r[2] and r[3] and r[4] and r[5] and r[6] == (not exp):
@@ -241,7 +255,7 @@ def task_eq(ka, kb, meta_b, read_b=False):
 def main():
     chk = Check("C19", __doc__)
     depth = 2 if chk.tier == "quick" else 3
-    chk.bounds = {"mapping": f"pre-state of 0..3 fields with distinct 1-char keys over {KS!r}; every sequence of 1..{depth} operations from {OPS} with symbolic key arguments",
+    chk.bounds = {"parsed entries": "the same operations on a field-less entry parsed by the splitter next to a second one (which must stay field-less, as must an entry parsed afterwards)", "mapping": f"pre-state of 0..3 fields with distinct 1-char keys over {KS!r}; every sequence of 1..{depth} operations from {OPS} with symbolic key arguments",
                   "equality": "all ordered pairs of kinds from Field/String/Preamble/ExplicitComment/ImplicitComment/Entry(1 field)/Entry(2 fields); every string attribute a symbolic char over {x,y}; start lines symbolic 0..1; with and without extra metadata on one or on both operands; with and without read-only use of one operand (start_line, raw, parser_metadata, get_parser_metadata, fields_dict, get, in, items) before the comparison"}
     chk.assumptions = ["field keys are distinct and not ENTRYTYPE/ID (statement)", "deleting an absent key is excluded (the statement does not fix whether a silent no-op is a 'result')",
                        "longer keys / deeper histories are outside the claim; the oracle dictionary is the engine's model of dict (keys compared by symbolic string equality, insertion order kept)"]
@@ -252,6 +266,10 @@ def main():
                 if d == 3 and n0 not in (2,):
                     continue
                 chk.add_task(f"map-n{n0}-" + "-".join(opnames), task_map, n0=n0, opnames=opnames)
+    # entries that come out of the splitter (field-less '@article{ek}' beside '@book{other}'): other entries are not touched
+    for d in range(min(depth, 2), 0, -1):
+        for opnames in itertools.product(("set_field", "setitem", "pop", "get", "in"), repeat=d):
+            chk.add_task("parsed-" + "-".join(opnames), task_map, n0=0, opnames=opnames, parsed=True)
     kinds = list(USED)
     for ka, kb in itertools.product(kinds, kinds):
         if ka == kb or (ka, kb) in (("ExplicitComment", "ImplicitComment"), ("ImplicitComment", "ExplicitComment"), ("Entry", "Entry2"), ("Entry2", "Entry"), ("String", "Preamble"), ("Field", "String")):
